@@ -556,6 +556,37 @@ def check_inverse(ctx, fi, cd, searched, kind):
     ev = SymEval({}, atoms)
     other_param = fi.params[0]       # rho for cdp_eps, eps for cdp_rho
     delta_param = fi.params[1]
+    # `PRE or ACCEPT`: a cheap pre-test may short-cut the acceptance test when it is SUFFICIENT for it.  Trusted lemma (Bun-Steinke 2016,
+    # Prop. 1.3, the same that seeds the eps bracket): for eps >= rho, cdp_delta(rho, eps) <= cdp_delta_standard(rho, eps).
+    if isinstance(S.test, ast.BoolOp) and isinstance(S.test.op, ast.Or):
+        from ..srcmodel import canon_compare
+        kept = []
+        for d_ in S.test.values:
+            conj = d_.values if isinstance(d_, ast.BoolOp) and isinstance(d_.op, ast.And) else [d_]
+            std = [c for c in conj if isinstance(c, ast.Compare) and len(c.ops) == 1 and isinstance(canon_compare(c).left, ast.Call)
+                   and U(canon_compare(c).left.func) == 'cdp_delta_standard']
+            if not std:
+                kept.append(d_)
+                continue
+            c0 = canon_compare(std[0])
+            args = [U(a_) for a_ in c0.left.args]
+            bound_ok = isinstance(c0.ops[0], (ast.LtE, ast.Lt)) and U(c0.comparators[0]) == delta_param and len(args) == 2
+            if kind == 'eps':
+                rho_t, eps_t = args if len(args) == 2 else (None, None)
+            else:
+                rho_t, eps_t = args if len(args) == 2 else (None, None)
+            dom = [canon_compare(c) for c in conj if c is not std[0]]
+            # eps >= rho   (canonical: rho <= eps)
+            domain_ok = any(isinstance(c.ops[0], (ast.LtE, ast.Lt)) and U(c.left) == rho_t and U(c.comparators[0]) == eps_t for c in dom if isinstance(c, ast.Compare))
+            ctx.ob('sound-side', fi, S.loop, bound_ok and domain_ok and len(conj) == 2,
+                   'a pre-test with the standard bound may replace the acceptance test only where that bound is valid and above the optimised one, '
+                   'i.e. together with `%s >= %s`; the pre-test is `%s`%s' % (eps_t, rho_t, U(d_), '' if domain_ok else
+                   ': without that condition exp(-(eps-rho)^2/(4 rho)) is small for eps far BELOW rho as well, and a midpoint is accepted that '
+                   'the bound itself rejects'), construct='pre-test of the search in ' + fi.name)
+        if len(kept) == 1:
+            S.test = kept[0]
+        elif len(kept) != len(S.test.values):
+            S.test = ast.BoolOp(op=ast.Or(), values=kept)
     l, op, r = S.compare()
     if not (isinstance(l, ast.Call) and U(l.func) == cd.name) and isinstance(r, ast.Call) and U(r.func) == cd.name and op in FLIP:
         l, op, r = r, FLIP[op], l
